@@ -49,8 +49,28 @@ var glue struct {
 	off      bool
 }
 
-// handlerJSON: POST /api/decide through the real handler function
+// handlerJSON: POST /api/decide through the real handler function, under a time limit (a handler that never
+// returns must not block the harness: status -2)
 func handlerJSON(body []byte) (status int, out []byte) {
+	type res struct {
+		st  int
+		out []byte
+	}
+	ch := make(chan res, 1)
+	go func() {
+		st, out := handlerJSONDirect(body)
+		ch <- res{st, out}
+	}()
+	select {
+	case r := <-ch:
+		return r.st, r.out
+	case <-time.After(15 * time.Second):
+		glue.off = true // the leaked goroutine may hold library locks: no further comparisons in this run
+		return -2, []byte("the handler did not answer within 15 s")
+	}
+}
+
+func handlerJSONDirect(body []byte) (status int, out []byte) {
 	glue.once.Do(func() {
 		gin.SetMode(gin.ReleaseMode)
 		gin.DefaultWriter, gin.DefaultErrorWriter = io.Discard, io.Discard
